@@ -1278,6 +1278,13 @@ let vl_cmd (args : string list) : string =
      | None -> "refused")
   | ["reopen"] ->
     (match vlogz_step !vl_cfg !vl_state (VReopen true) with Some st -> vl_state := st; vl_show () | None -> "refused")
+  | ["readers"; k] ->
+    (* the set of registered readers at the next physical command: every reader present is closed, k readers are opened
+       (each takes the current table set) *)
+    let step st o = match vlogz_step !vl_cfg st o with Some s -> s | None -> failwith "reader op refused" in
+    let st = List.fold_left (fun st (rid, _) -> step st (VReaderClose rid)) !vl_state !vl_state.vs_readers in
+    let st = List.fold_left (fun st i -> step st (VReaderOpen (n_of_int i))) st (List.init (int_of_string k) (fun i -> i + 1)) in
+    vl_state := st; Printf.sprintf "readers:%d" (List.length st.vs_readers)
   | ["state"] -> vl_show ()
   | _ -> "bad-command"
 
